@@ -15,7 +15,8 @@ META = dict(
     bounds=dict(
         quick="construction with 14 argument subsets of {atnums, atcorenums, charge, nelec, spinpol, mo, atcoords} "
               "followed by every operation sequence of length <= 2 over 19 operations (assign/clear atnums (2 and 3 "
-              "atoms), atcorenums (2/3), charge, nelec, spinpol, mo, atcoords (None/2/3 atoms); read charge; read all); all "
+              "atoms), atcorenums (2/3), charge, nelec, spinpol, mo, atcoords (None/2/3 atoms); read charge; read all), and from three starting points over all 27 "
+              "operations (adds atmasses, atgradient, atfrozen of 2/3 atoms, read atcorenums, read natom); all "
               "real values of charge, nelec, spinpol, core charges and orbital occupations",
         thorough="all 128 construction subsets, sequences of length <= 3 over 27 operations (adds atmasses, atgradient, "
                  "atfrozen of 2/3 atoms, read atcorenums, read natom)"),
@@ -319,6 +320,10 @@ def jobs(tier):
         for ctor in CTOR_QUICK:
             out.append(job("C11", f"history[ctor={'+'.join(ctor) or 'none'}]", M, "h_history",
                            dict(ctor=list(ctor), depth=2, ops="quick"), budget_s=240, max_validate=25))
+        # the full operation set (incl. masses, gradient, frozen flags, natom) at depth 2 from three starting points
+        for ctor in ((), ("atnums",), ("atcoords",)):
+            out.append(job("C11", f"history-all-ops[ctor={'+'.join(ctor) or 'none'}]", M, "h_history",
+                           dict(ctor=list(ctor), depth=2, ops="all"), budget_s=240, max_validate=25))
     else:
         for r in range(len(CTOR_ALL_KEYS) + 1):
             for ctor in itertools.combinations(CTOR_ALL_KEYS, r):
